@@ -21,7 +21,7 @@ TYPES: dict[str, dict[str, tuple[str, str]]] = {
         'P': ('a3', 'v4'), 'Pt': ('v4', 'a3'), 'Pu': ('a3', 'a2'), 'Put': ('a2', 'a3'),
         'Ps': ('a3', 'a2'), 'Pst': ('a2', 'a3'), 'Pm': ('a3', 'a2'), 'Pmt': ('a2', 'a3'),
         'Pk': ('a3', 'a2'), 'Pkt': ('a2', 'a3'), 'Pn': ('v4', 'v4'),
-        'Pp': ('a3', 'a3'), 'Pr': ('a3', 'a3'), 'Pa': ('a3', 'v4'), 'Pat': ('v4', 'a3'),
+        'Pp': ('a3', 'a3'), 'Pr': ('a3', 'a3'), 'Pa': ('a3', 'v4'), 'Pat': ('v4', 'a3'), 'P1': ('a3', 'v1'), 'P1t': ('v1', 'a3'),
         'Rv': ('m22', 'v4'), 'Rvt': ('v4', 'm22'), 'Rs': ('v4', 'm22'), 'Rst': ('m22', 'v4'),
         'R41': ('m41', 'v4'), 'R41t': ('v4', 'm41'), 'Rn': ('m22', 'm22'), 'M01': ('m22', 'm22'), 'M10': ('m22', 'm22'), 'Mx': ('m22', 'm22'),
         'D4': ('v4', 'v4'), 'D3': ('a3', 'a3'), 'k3': ('a3', 'a3'), 'k4': ('v4', 'v4'), 'I4': ('v4', 'v4'),
@@ -125,7 +125,8 @@ def build(domain: str, variant: int = 0, fresh: bool = False) -> dict:
         }
     elif domain == 'IDX':
         a3, a2, v4, m22, m41 = sds(3), sds(2), sds(4), sds(2, 2), sds(4, 1)
-        spaces = {'a3': a3, 'a2': a2, 'v4': v4, 'm22': m22, 'm41': m41}
+        spaces = {'a3': a3, 'a2': a2, 'v4': v4, 'm22': m22, 'm41': m41, 'v1': sds(1)}
+        P1 = IndexOperator(jnp.array([2]), in_structure=a3)   # a one-element index array, uniqueness not declared
         R41 = RavelOperator(in_structure=m41)
         P = IndexOperator(jnp.array([0, 2, 2, -1]), in_structure=a3, out_structure=v4)
         Pu = IndexOperator(jnp.array([2, 0]), in_structure=a3, out_structure=a2, unique_indices=True)
@@ -140,7 +141,7 @@ def build(domain: str, variant: int = 0, fresh: bool = False) -> dict:
         Rs = ReshapeOperator((2, 2), in_structure=v4)
         atoms = {
             'P': P, 'Pt': P.T, 'Pu': Pu, 'Put': Pu.T, 'Ps': Ps, 'Pst': Ps.T, 'Pm': Pm, 'Pmt': Pm.T,
-            'Pp': Pp, 'Pr': Pr, 'Pa': Pa, 'Pat': Pa.T,
+            'Pp': Pp, 'Pr': Pr, 'Pa': Pa, 'Pat': Pa.T, 'P1': P1, 'P1t': P1.T,
             'Pk': Pk, 'Pkt': Pk.T, 'Pn': IndexOperator((slice(None),), in_structure=v4, out_structure=v4),
             'Rv': Rv, 'Rvt': Rv.T, 'Rs': Rs, 'Rst': Rs.T, 'R41': R41, 'R41t': R41.T, 'Rn': ReshapeOperator((2, -1), in_structure=m22),
             'M01': MoveAxisOperator(0, 1, in_structure=m22), 'M10': MoveAxisOperator(1, 0, in_structure=m22),
